@@ -451,7 +451,7 @@ fn run(args: &[String]) -> i32 {
             total_runs: runs,
             block: if tier == "thorough" { 50_000 } else { 10_000 },
             workers,
-            max_wall_s: if tier == "thorough" { 1500.0 } else { 120.0 },
+            max_wall_s: simcore::env_u64("VERIF_MAX_WALL_S", if tier == "thorough" { 1500 } else { 120 }) as f64,
             max_violations: 64,
             env: vec![],
         };
